@@ -4,6 +4,7 @@ import LexgenModel.Proofs.BisimSound
 import LexgenModel.Proofs.RuleSetLang
 import LexgenModel.Proofs.CompileLang
 import LexgenModel.Proofs.EndToEnd
+import LexgenModel.Proofs.RefMatch
 /-!
 # C02 — Regex operators denote their documented languages
 
@@ -117,5 +118,15 @@ theorem C02_matches_are_language_matches {σ τ ε : Type} (items : LexerDef) (c
       ∀ iter n a viaEoi,
         Cand (c.config actions width input) e iter n a viaEoi ↔ LangCand rules ctxAt iter n a viaEoi :=
   compile_cand_iff items c h hok ctxAt hnum name rs b k hmem actions width input
+
+/-- The denotation of every regex is DECIDABLE by Brzozowski derivatives, and the executable matcher is correct: this is the verified core of the
+reference lexer the checks run against the implementation. -/
+theorem C02_reference_matcher (r : Regex) (w : List Sym) : matchesR r w = true ↔ den r w :=
+  matchesR_iff r w
+
+/-- …and so is maximal munch with first-rule priority: the executable selector returns exactly the `Selects` triple. -/
+theorem C02_reference_selector (rules : List CoreRule) (ctxAt : Nat → Regex) (iter : List Nat) (n a : Nat) (e : Bool) :
+    selectRef rules ctxAt iter = some (n, a, e) ↔ Selects rules ctxAt iter n a e :=
+  selectRef_some rules ctxAt iter n a e
 
 end Lexgen
